@@ -1,4 +1,121 @@
-/- driver operations of C16 (stub: no model yet) -/
+/-
+Driver operations of C16: one aliasing scenario per request.
+
+  `scen <init A> <k> <pre-ops on A> <deriv> <m> <ops on B>`
+     → `<n derived> <shares-with-A per derived object> ; <B shares A after ops> <A changed> <A2 changed> <bits of A> ; <per op on B: p q s m>`
+        where `p q s` = the positions / quaternion / stamps array is the same array as before the op, `m` = how many
+        matrices of the new list are arrays of the old list (allocation behaviour of each method)
+
+`<init>` and the ops use the C08 syntax (`tf`, `sc`, `red`, `pj`, `rd pos|quat|se3`; anything else is refused).
+`<deriv>` = `copy` | `assoc <natlist>` | `merge <init A2>` | `split 0|1 <natlist bounds> <part>` |
+            `splitold 0|1 <natlist bounds> <part>` | `self`
+"A changed" compares what A shows (matrices, positions, rotations, stamps as the lazy properties
+compute them) before the derivation and after the history on the derived object B.
+-/
+import EvoModel.Model.Heap
+import EvoModel.Drv.C08
 namespace Evo.Drv.C16
-def handle (_op : String) (_args : List String) : Option String := none
+open Evo Evo.Traj Evo.Heap Evo.Drv.C08
+
+def hopOf : Op → Option HOp
+  | .transform m T norm => some (.transform m T norm)
+  | .scale c => some (.scale c)
+  | .reduce ids => some (.reduce ids)
+  | .project nd rots => some (.project nd rots)
+  | .read .pos => some .readPos
+  | .read .quat => some .readQuat
+  | .read .se3 => some .readSe3
+  | _ => none
+
+def hopsP : Prs (List HOp) := do
+  let k ← natP
+  let ops ← repP opP k
+  (ops.mapM hopOf : Option (List HOp))
+
+/-- build the object in the heap from the C08 machine state produced by the constructor parser -/
+def alloc0 (h : Heap) (s : St) : Heap × Obj :=
+  match s.se3? with
+  | some ps => newSe3 h ps s.stamps
+  | none => newPosQuat h (s.pos?.getD []) (s.quat?.getD []) s.stamps
+
+def shown (h : Heap) (o : Obj) : List P × List (V3 Rat) × List (M3 Rat) × List Rat :=
+  (se3Vals h o, posVals h o, quatVals h o, (o.stamps?.map h.rats).getD [])
+
+def b01 (b : Bool) : String := if b then "1" else "0"
+
+def bits (o : Obj) : String :=
+  (if o.pos?.isSome then "p" else "-") ++ (if o.quat?.isSome then "q" else "-") ++ (if o.se3?.isSome then "m" else "-")
+
+inductive Deriv
+  | copy | self
+  | assoc (ids : List Nat)
+  | merge (s2 : St)
+  | split (old cut : Bool) (bounds : List Nat) (part : Nat)
+
+def derivP : Prs Deriv := do
+  let t ← tok
+  match t with
+  | "copy" => pure .copy
+  | "self" => pure .self
+  | "assoc" => do let l ← natListP; pure (.assoc l)
+  | "merge" => do let (s2, _) ← initP; pure (.merge s2)
+  | "split" => do let c ← natP; let b ← natListP; let k ← natP; pure (.split false (c == 1) b k)
+  | "splitold" => do let c ← natP; let b ← natListP; let k ← natP; pure (.split true (c == 1) b k)
+  | _ => failure
+
+def keptOpt (a b : Option Nat) : String :=
+  match a, b with
+  | some x, some y => b01 (x == y)
+  | _, _ => "0"
+
+def traceOps (h : Heap) (o : Obj) : List HOp → List String × Heap × Obj
+  | [] => ([], h, o)
+  | op :: r =>
+      let (h1, o1) := hstep h o op
+      let m := ((o1.se3?.getD []).filter (fun a => (o.se3?.getD []).contains a)).length
+      let line := s!"{keptOpt o.pos? o1.pos?}{keptOpt o.quat? o1.quat?}{keptOpt o.stamps? o1.stamps?}{m}"
+      let (ls, h2, o2) := traceOps h1 o1 r
+      (line :: ls, h2, o2)
+
+def scenario (sA : St) (pre : List HOp) (d : Deriv) (ops : List HOp) : String :=
+  let (h0, a0) := alloc0 Heap.empty sA
+  let (h1, a1) := hrun h0 a0 pre
+  let before := shown h1 a1
+  -- derivation: heap, A afterwards, optional second input afterwards, derived objects, index of B
+  let (h2, a2, x2, ds, k) : Heap × Obj × Option (Obj × (List P × List (V3 Rat) × List (M3 Rat) × List Rat)) × List Obj × Nat :=
+    match d with
+    | .copy => let (h2, c) := deepcopy h1 a1; (h2, a1, none, [c], 0)
+    | .self => (h1, a1, none, [a1], 0)
+    | .assoc ids => let (h2, c) := associateOne h1 a1 ids; (h2, a1, none, [c], 0)
+    | .merge s2 =>
+        let (hx, x) := alloc0 h1 s2
+        let bx := shown hx x
+        let (h2, os, mg) := merge hx [a1, x]
+        (h2, os.headD a1, some ((os.drop 1).headD x, bx), [mg], 0)
+    | .split old cut bounds part =>
+        let (h2, p, parts) := if old then splitOld h1 a1 cut bounds else splitNew h1 a1 cut bounds
+        (h2, p, none, parts, part)
+  let sh := ds.map (fun p => b01 (sharesB p a2))
+  let b := ds.getD k a2
+  let (tr, h3, b3) := traceOps h2 b ops
+  -- when B *is* A (self / pre-fix no-cut split) A is the mutated object itself
+  let a3 := if b == a2 then b3 else a2
+  let changedA := decide (shown h3 a3 ≠ before)
+  let changedX := match x2 with
+    | some (x, bx) => decide (shown h3 x ≠ bx)
+    | none => false
+  s!"{ds.length} {" ".intercalate sh} ; {b01 (sharesB b3 a2)} {b01 changedA} {b01 changedX} {bits a2} ; {" ".intercalate tr}"
+
+def handle (op : String) (args : List String) : Option String :=
+  match op with
+  | "scen" => do
+      let (((sA, _), pre, d, ops), _) ← (do
+        let a ← initP
+        let pre ← hopsP
+        let d ← derivP
+        let ops ← hopsP
+        pure (a, pre, d, ops) : Prs _) args
+      some (scenario sA pre d ops)
+  | _ => none
+
 end Evo.Drv.C16
